@@ -840,3 +840,162 @@ def _stmt_of(db: ProgramDB, node: ast.AST) -> ast.stmt:
     while p is not None and not isinstance(p, ast.stmt):
         p = db.parent(p)
     return p
+
+
+# ---------------------------------------------------------------------------------- COVERAGE-SUBSUMPTION
+def rule_coverage_subsumption(db: ProgramDB) -> List[Instance]:
+    """A lookup is covered exactly when some stored binding is CONTAINED in it: every key the stored binding binds is bound
+    by the lookup to the same value.  Decided by evaluating the per-key test of SeenSet.check in the three situations a key of
+    a stored binding can be in: bound to the same value (must hold), bound to another value (must fail), not bound by the
+    lookup (must fail - otherwise a lookup that binds fewer keys is answered from rows that were computed for one value of
+    the missing key only)."""
+    out = []
+    ss = db.cls("SeenSet")
+    m = ss.methods.get("check")
+    if m is None:
+        raise AnalysisError("SeenSet.check not found")
+    ap = m.positional_params[1]
+    alls = [c for c in own_nodes(m.node) if isinstance(c, ast.Call) and dotted(c.func) == "all" and c.args
+            and isinstance(c.args[0], (ast.GeneratorExp, ast.ListComp))]
+    if len(alls) != 1:
+        raise AnalysisError(f"SeenSet.check: expected one all(… for k, v in constraint.items()), found {len(alls)}")
+    comp = alls[0].args[0]
+    g = comp.generators[0]
+    if not (isinstance(g.target, ast.Tuple) and len(g.target.elts) == 2 and all(isinstance(e, ast.Name) for e in g.target.elts)) or g.ifs:
+        raise AnalysisError("SeenSet.check: the per-key test is not over (key, value) pairs of a stored binding")
+    kn, vn = g.target.elts[0].id, g.target.elts[1].id
+
+    class Unknown(Exception):
+        pass
+
+    def ev(e: ast.AST, case: str):
+        """case: 'same' | 'other' | 'missing'.  Values: 'V' (the stored value), 'W' (another value), booleans."""
+        if isinstance(e, ast.Constant):
+            return e.value
+        if isinstance(e, ast.Name):
+            if e.id == vn:
+                return "V"
+            raise Unknown(unparse(e))
+        if isinstance(e, ast.Subscript) and unparse(e.value) == ap and unparse(e.slice) == kn:
+            if case == "missing":
+                raise KeyError
+            return "V" if case == "same" else "W"
+        if isinstance(e, ast.Call) and call_attr(e) == "get" and unparse(e.func.value) == ap and e.args and unparse(e.args[0]) == kn:
+            if case == "missing":
+                return ev(e.args[1], case) if len(e.args) > 1 else None
+            return "V" if case == "same" else "W"
+        if isinstance(e, ast.Compare) and len(e.ops) == 1:
+            if isinstance(e.ops[0], (ast.In, ast.NotIn)) and unparse(e.left) == kn and unparse(e.comparators[0]) in (ap, f"{ap}.keys()"):
+                r = case != "missing"
+                return r if isinstance(e.ops[0], ast.In) else not r
+            l, r = ev(e.left, case), ev(e.comparators[0], case)
+            if isinstance(e.ops[0], (ast.Eq, ast.Is)):
+                return l == r
+            if isinstance(e.ops[0], (ast.NotEq, ast.IsNot)):
+                return l != r
+        if isinstance(e, ast.IfExp):
+            return ev(e.body, case) if ev(e.test, case) else ev(e.orelse, case)
+        if isinstance(e, ast.BoolOp):
+            if isinstance(e.op, ast.And):
+                r = True
+                for x in e.values:
+                    r = ev(x, case)
+                    if not r:
+                        return r
+                return r
+            r = False
+            for x in e.values:
+                r = ev(x, case)
+                if r:
+                    return r
+            return r
+        if isinstance(e, ast.UnaryOp) and isinstance(e.op, ast.Not):
+            return not ev(e.operand, case)
+        raise Unknown(unparse(e))
+    want = {"same": True, "other": False, "missing": False}
+    words = {"same": "the lookup binds the key to the stored value", "other": "the lookup binds the key to another value",
+             "missing": "the lookup does not bind the key"}
+    for case in ("same", "other", "missing"):
+        try:
+            got = bool(ev(comp.elt, case))
+        except KeyError:
+            out.append(inst("COVERAGE-SUBSUMPTION", VIOLATION, m, f"SeenSet.check[{case}]", f"`{unparse(comp.elt)}` raises KeyError when {words[case]}", line=comp.lineno))
+            continue
+        except Unknown as u:
+            out.append(inst("COVERAGE-SUBSUMPTION", UNDECIDED, m, f"SeenSet.check[{case}]", f"`{unparse(comp.elt)}`: sub-expression `{u}` is outside the accepted table", line=comp.lineno))
+            continue
+        ok = got == want[case]
+        out.append(inst("COVERAGE-SUBSUMPTION", HOLDS if ok else VIOLATION, m, f"SeenSet.check[{case}]",
+                        f"when {words[case]} the per-key test is {got}" + ("" if ok else
+                        f", it has to be {want[case]}: the stored binding is then taken to cover a lookup it is not contained in, the "
+                        f"operator skips the evaluation and replays a cache that holds the rows of another binding (rows are lost on the second "
+                        f"evaluation of the same query)"), line=comp.lineno))
+    return out
+
+
+# ---------------------------------------------------------------------------------- CACHE-OPERAND-AGREEMENT
+def rule_cache_operand_agreement(db: ProgramDB) -> List[Instance]:
+    """An operand cache stands for one operand: `right_cache` is keyed by the variables of `self.right` and holds the rows of
+    `self.right` (stored per row of that operand's stream).  Keys or rows taken from the other operand make the cache claim
+    bindings it has no rows for."""
+    from .binding import derived_closure, names_in
+    from ..evalsites import site_model
+    out = []
+    se = db.cls("SymbolicExpression")
+    model = site_model(db)
+    n = 0
+    for c in sorted([se] + se.all_subclasses(), key=lambda k: k.qualname):
+        for m in c.methods.values():
+            if m.cls is not c:
+                continue
+            # keys
+            for a in own_nodes(m.node):
+                if isinstance(a, ast.Assign) and len(a.targets) == 1 and isinstance(a.targets[0], ast.Attribute) and a.targets[0].attr == "keys":
+                    recv = a.targets[0].value
+                    if isinstance(recv, ast.Attribute) and isinstance(recv.value, ast.Name) and recv.value.id == "self" and recv.attr.endswith("_cache") \
+                            and recv.attr.split("_")[0] in ("left", "right"):
+                        side = recv.attr.split("_")[0]
+                        other = "left" if side == "right" else "right"
+                        srcs = names_in(a.value)
+                        defs = local_defs(m)
+                        text = unparse(a.value)
+                        for nm in srcs:
+                            for d in defs.get(nm, []):
+                                if isinstance(d, ast.AST):
+                                    text += " " + unparse(d)
+                        n += 1
+                        ok = f"self.{side}." in text and f"self.{other}." not in text
+                        out.append(inst("CACHE-OPERAND-AGREEMENT", HOLDS if ok else VIOLATION, m, f"{m.short}[keys of self.{recv.attr}]",
+                                        f"keyed by the variables of self.{side}" if ok else
+                                        f"`{unparse(a)[:70]}` keys the cache of the {side} operand by something else than the variables of self.{side}: "
+                                        f"rows of self.{side} that bind other variables are stored under no key and a later binding is reported "
+                                        f"as covered (results differ on re-evaluation with caching enabled)", line=a.lineno))
+            # rows
+            if not m.is_generator:
+                continue
+            for call in own_calls(m):
+                if call_attr(call) != "update_cache" or len(call.args) < 2:
+                    continue
+                cexpr = call.args[1]
+                if not (isinstance(cexpr, ast.Attribute) and isinstance(cexpr.value, ast.Name) and cexpr.value.id == "self"
+                        and cexpr.attr.endswith("_cache") and cexpr.attr.split("_")[0] in ("left", "right")):
+                    continue
+                side = cexpr.attr.split("_")[0]
+                loops = model._enclosing_stream_loops(m, call)
+                mine = [l for l in loops if f"self.{side}." in unparse(l.iter) or any(
+                    f"self.{side}." in unparse(d) for nm in names_in(l.iter) for d in local_defs(m).get(nm, []) if isinstance(d, ast.AST))]
+                n += 1
+                if not mine:
+                    out.append(inst("CACHE-OPERAND-AGREEMENT", VIOLATION, m, f"{m.short}[{unparse(call)[:50]}]",
+                                    f"rows are stored into self.{cexpr.attr} outside any loop over the rows of self.{side}", line=call.lineno))
+                    continue
+                tn = {x.id for x in ast.walk(mine[-1].target) if isinstance(x, ast.Name)}
+                ok = isinstance(call.args[0], ast.Name) and call.args[0].id in tn
+                out.append(inst("CACHE-OPERAND-AGREEMENT", HOLDS if ok else VIOLATION, m, f"{m.short}[{unparse(call)[:50]}]",
+                                f"the row of self.{side} is what is stored in self.{cexpr.attr}" if ok else
+                                f"`{unparse(call)}` stores `{unparse(call.args[0])}`, not the row `{', '.join(sorted(tn))}` of self.{side}, in the cache "
+                                f"of the {side} operand: the stored binding does not bind that operand's variables, so it covers every later "
+                                f"lookup and replays rows with those variables unbound", line=call.lineno))
+    if n == 0:
+        raise AnalysisError("no operand cache (left_cache / right_cache) found")
+    return out
